@@ -70,6 +70,7 @@ impl<T> Block<T> {
     }
 
     // Gets the length of the next block, if it exists.
+    #[cfg_attr(not(test), allow(dead_code))]
     pub(crate) fn next_len(&self, guard: &Guard) -> usize {
         let tail = self.next.load(Ordering::Acquire, guard);
         if tail.is_null() {
@@ -78,6 +79,12 @@ impl<T> Block<T> {
 
         let tail_block = unsafe { tail.deref() };
         tail_block.len()
+    }
+
+    // Whether or not any slot of this block has been completely written, regardless of earlier slots still being
+    // in flight.
+    fn has_written(&self) -> bool {
+        self.read.load(Ordering::Acquire) != 0
     }
 
     /// Gets the current length of this block.
@@ -229,8 +236,16 @@ impl<T> AtomicBucket<T> {
 
         // We have to check the next block of our tail in case the current tail is simply a fresh
         // block that has not been written to yet.
+        //
+        // We look for _any_ completed write rather than at the block length: a completed write can sit behind a slot
+        // whose write is still in flight, which the length does not account for.
         let tail_block = unsafe { tail.deref() };
-        tail_block.len() == 0 && tail_block.next_len(guard) == 0
+        if tail_block.has_written() {
+            return false;
+        }
+
+        let next = tail_block.next.load(Ordering::Acquire, guard);
+        next.is_null() || !unsafe { next.deref() }.has_written()
     }
 
     /// Pushes an element into the bucket.
@@ -423,7 +438,6 @@ impl<T> AtomicBucket<T> {
             while detached_block.len() < claimed {
                 backoff.snooze();
             }
-
 
             // While we have a valid block -- either `tail` or the next block as we keep reading -- we
             // load the data from each block and process it by calling `f`.
